@@ -564,6 +564,13 @@ void Walker::judgeProcessing(Inst& in, const char* what, const Cfg& before, cons
 				if (lastDest >= 0) { int chain[3], n = 0; for (int c2 = node(lastDest).parent; c2 >= 0 && n < 3; c2 = node(c2).parent) if (node(c2).kind == COMPO) chain[n++] = c2;
 					if (n == 3) { int lastIdx = -1; for (size_t i = 0; i < applied.size(); ++i) if (applied[i].type != T_SCHEDULE) lastIdx = (int) i;
 						for (int i = 0; i < lastIdx; ++i) { if (applied[i].type == T_SCHEDULE) continue; bool inside = false; for (int c2 = applied[i].dest; c2 >= 0; c2 = node(c2).parent) if (c2 == chain[1]) inside = true; if (!inside) f34 = true; } } }
+				// ... and it is only F34 when the region that lost the path was left without a request of its own: let T be the highest inactive state on
+				// the path and P its (active) parent; an earlier request aimed at P itself or at another branch of P means the later request simply
+				// lost against the earlier one - that is not tolerated
+				if (f34 && lastDest >= 0) { int T = -1; for (int c = lastDest; c >= 0; c = node(c).parent) if (!in.fsm->isActive((StateID) c)) T = c;
+					if (T > 0) { const int P = node(T).parent; int lastIdx = -1; for (size_t i = 0; i < applied.size(); ++i) if (applied[i].type != T_SCHEDULE) lastIdx = (int) i;
+						for (int i = 0; i < lastIdx; ++i) { if (applied[i].type == T_SCHEDULE) continue; const int d = applied[i].dest; bool inP = false, inT = false; for (int c2 = d; c2 >= 0; c2 = node(c2).parent) { if (c2 == P) inP = true; if (c2 == T) inT = true; }
+							if (d == P || (inP && !inT)) f34 = false; } } }
 				if (lastDest >= 0 && any) for (int c = lastDest; c >= 0; c = node(c).parent) if (!in.fsm->isActive((StateID) c)) { if (f34 && S.known("F34")) { st.cls("postcondition_failures_tolerated_F34"); break; } std::snprintf(buf, sizeof buf, "after an approved batch the destination %d of the last request is not active (state %d inactive) (%s, step %u)", lastDest, c, what, S.stepNo); S.violation("C02", buf); break; }
 			} else {
 				std::ostringstream o; o << "configuration differs from the prescribed one after " << what << " (step " << S.stepNo << "): requests";
@@ -888,7 +895,6 @@ void Walker::judgePlans(Inst& in, const std::vector<std::vector<PTask>>& before,
 	bool succ[HV_NS], failm[HV_NS]; for (int s = 0; s < HV_NS; ++s) { succ[s] = in.markS0[s] && wasActive[s]; failm[s] = in.markF0[s] && wasActive[s]; }
 	bool stepSucc[HV_NS] = {false}, stepFail[HV_NS] = {false}; int reporters = 0, lastReporter = -1; bool anyRequest = false, anyPlanEdit = false;
 	for (int i = 0; i < firstRound; ++i) { const Ev& e = x.tr[i];
-		if (e.kind == E_ACT_PLAN && e.method == 255 && e.a >= 0 && e.a < HV_REGION_COUNT) { const int head = regionHead(e.a); for (int s2 = head; s2 < head + node(head).size && s2 < HV_NS; ++s2) succ[s2] = failm[s2] = false; } // plan.clear() wipes the marks of the region's states
 		if (e.kind == E_ACT_SUCCEED) { succ[e.a] = true; if (!stepSucc[e.a] && !stepFail[e.a]) { ++reporters; lastReporter = e.a; } stepSucc[e.a] = true; }
 		if (e.kind == E_ACT_FAIL) { failm[e.a] = true; if (!stepSucc[e.a] && !stepFail[e.a]) { ++reporters; lastReporter = e.a; } stepFail[e.a] = true; }
 		if (e.kind == E_LOG_TASK && e.state >= 0 && e.state < HV_NS) { if (e.b == 0) succ[e.state] = true; else failm[e.state] = true; } // includes results passed on by planSucceeded/planFailed
@@ -906,19 +912,22 @@ void Walker::judgePlans(Inst& in, const std::vector<std::vector<PTask>>& before,
 	bool workPlanExists[HV_REGION_COUNT > 0 ? HV_REGION_COUNT : 1] = {false}; for (int i = 0; i < firstRound; ++i) if (x.tr[i].kind == E_ACT_PLAN && x.tr[i].method != 255 && x.tr[i].f > 0.5f) workPlanExists[x.tr[i].a] = true;
 	std::vector<std::vector<PTask>> work = before;   // tasks still in the plans as the step proceeds (appends by scripts are added when seen)
 	{ size_t ii = 0;
+	  bool cur[HV_NS]; for (int s2 = 0; s2 < HV_NS; ++s2) cur[s2] = in.markS0[s2] && wasActive[s2];   // success marks as they stand while the step proceeds
 	  for (int i = 0; i < firstRound; ++i) { const Ev& e = x.tr[i];
+		if (e.kind == E_ACT_SUCCEED) cur[e.a] = true;
+		if (e.kind == E_LOG_TASK && e.b == 0 && e.state >= 0 && e.state < HV_NS) cur[e.state] = true;
 		if (e.kind == E_ACT_PLAN && e.method != 255 && e.f > 0.5f) { work[e.a].push_back(PTask{e.state, e.b, e.method, e.tag == NO_TAG ? NO_TAG : e.tag}); in.planExists[e.a] = true; }
-		if (e.kind == E_ACT_PLAN && e.method == 255) work[e.a].clear();
+		if (e.kind == E_ACT_PLAN && e.method == 255) { work[e.a].clear(); if (e.a >= 0 && e.a < HV_REGION_COUNT) { const int head = regionHead(e.a); for (int s2 = head; s2 < head + node(head).size && s2 < HV_NS; ++s2) cur[s2] = false; } } // plan.clear() also wipes the marks of the region's states
 		while (ii < issued.size() && issued[ii].at == i) {
 			const Issued& q = issued[ii++];
 			if (q.head < 0 || q.head >= HV_NS || !isRegion(q.head)) { in.planIssuedTags.push_back(0xFFFFFFFEu); std::snprintf(buf, sizeof buf, "a transition was requested on behalf of state %d, which is no region head, without anybody requesting it (%s, step %u)", q.head, what, S.stepNo); S.violation("C06", buf); continue; }
 			const int r = node(q.head).region; auto& plan = work[r];
 			// the first task, in order, with an active origin that succeeded and this destination, before any task with an inactive origin
-			int found = -1; for (size_t k = 0; k < plan.size(); ++k) { if (!wasActive[plan[k].origin]) break; if (plan[k].dest == q.dest && succ[plan[k].origin]) { found = (int) k; break; } }
+			int found = -1; for (size_t k = 0; k < plan.size(); ++k) { if (!wasActive[plan[k].origin]) break; if (plan[k].dest == q.dest && cur[plan[k].origin]) { found = (int) k; break; } }
 			in.planIssuedTags.push_back(found >= 0 ? plan[found].tag : 0xFFFFFFFEu);
 			if (found < 0) { std::snprintf(buf, sizeof buf, "region %d requested %s->%d on behalf of its plan, but the plan holds no task to %d whose origin is active and succeeded (and that is not behind a task with an inactive origin) (%s, step %u)", q.head, TTN[q.type % 7], q.dest, q.dest, what, S.stepNo); S.violation("C06", buf); continue; }
 			if (plan[found].type != q.type) { if (!(q.type == T_CHANGE && S.known("F12"))) { std::snprintf(buf, sizeof buf, "task %d->%d of kind %s was executed as %s (%s, step %u)", plan[found].origin, plan[found].dest, TTN[plan[found].type % 7], TTN[q.type % 7], what, S.stepNo); S.violation("C06", buf); } }
-			if (plan[found].origin == plan[found].dest) succ[plan[found].origin] = false; // a cyclic task consumes the success it was waiting for
+			if (plan[found].origin == plan[found].dest) cur[plan[found].origin] = false; // a cyclic task consumes the success it was waiting for
 			plan.erase(plan.begin() + found); }
 	  } }
 	// the plans after the step = what remains (the library also empties a plan when it reports success)
@@ -1339,10 +1348,11 @@ static rc::Gen<hv::Bytes> hv_gen() {
 			for (int e = 0; e < 4; ++e) for (int i = 0; i < 6; ++i) r[8 + e * 6 + i] = std::get<2>(t)[e][i];
 			return r; });
 	const bool two = p == "C08" || p == "C09";
+	const bool eitherCount = p == "C11"; // one or two instances as generated (the second one is the target of save->load and starts out not activated now and then)
 	return gen::map(gen::tuple(gen::container<std::vector<uint8_t>>(HDR, hv::byte()), gen::container<std::vector<std::array<uint8_t, REC>>>(op)),
-		[two](const std::tuple<std::vector<uint8_t>, std::vector<std::array<uint8_t, REC>>>& t) {
+		[two, eitherCount](const std::tuple<std::vector<uint8_t>, std::vector<std::array<uint8_t, REC>>>& t) {
 			hv::Bytes b = std::get<0>(t);
-			b[1] = (uint8_t) ((b[1] & ~1) | (two ? 1 : 0));
+			if (!eitherCount) b[1] = (uint8_t) ((b[1] & ~1) | (two ? 1 : 0));
 			if ((b[1] & 6) && (b[5] & 7)) b[1] &= (uint8_t) ~6; // mostly start activated
 			for (auto& o : std::get<1>(t)) b.insert(b.end(), o.begin(), o.end());
 			return b; });
